@@ -708,8 +708,15 @@ func (val Value) Divide(other Value) Value {
 		return (*shortCircuit).RefineNotNull()
 	}
 
+	divisor := other.v.(*big.Float)
+	if divisor.Sign() == 0 && divisor.Signbit() {
+		// Negative zero is exactly zero, so as documented above the sign of
+		// the resulting infinity depends on the receiver alone.
+		divisor = new(big.Float).Abs(divisor)
+	}
+
 	ret := new(big.Float)
-	ret.Quo(val.v.(*big.Float), other.v.(*big.Float))
+	ret.Quo(val.v.(*big.Float), divisor)
 	return NumberVal(ret)
 }
 
